@@ -454,8 +454,6 @@ func explainRoundTrip(want, got cpe.WFN) string {
 		}
 		var c string
 		switch {
-		case a.Kind == cpe.ValueSet && a.V == "" && b == (cpe.Value{Kind: cpe.ValueUnset}):
-			c = rtEmpty // a set value with the empty string is written as an empty component
 		case a.Kind == cpe.ValueSet && b.Kind == cpe.ValueSet && strings.Contains(a.V, "\\_") && replaceQuotedUnderscore(a.V) == b.V:
 			c = rtUnderscore // a quoted underscore is bound unquoted
 		default:
@@ -798,11 +796,13 @@ func (h *harness) replayKnown() {
 			h.r.KnownSeen(rtUnderscore, fmt.Sprintf("vendor %q binds to %q and unbinds to vendor %q", "foo\\_bar", w.BindFS(), got.Attr[1].V))
 		}
 	}
+	// f1b06d69: a set value with the empty string is not valid any more
 	w = mkName(map[int]string{1: ""})
-	if w.Valid() == nil {
-		if got, err := cpe.Unbind(w.BindFS()); err == nil && got != norm(w) && got.Attr[1].Kind == cpe.ValueUnset {
-			h.r.KnownSeen(rtEmpty, fmt.Sprintf("vendor Value{Kind: ValueSet, V: \"\"} is Valid, binds to %q and unbinds to an unset vendor", w.BindFS()))
-		}
+	if err := w.Valid(); err == nil {
+		h.r.Fail("", fmt.Sprintf("vendor Value{Kind: ValueSet, V: \"\"} is Valid; it binds to %q, which unbinds to an unset vendor", w.BindFS()))
+	}
+	if _, err := cpe.NewValue(""); err == nil {
+		h.r.Fail("", `cpe.NewValue("") succeeds: a set value with the empty string`)
 	}
 	for _, k := range []struct{ id, s string }{
 		{lenFewer, "cpe:2.3:a:b"},
